@@ -1,11 +1,129 @@
 /-
-  C04 — property theorems only (placeholder until the refinement proof lands).
--/
-import JSV.Model.Validate
-namespace JSV.C04
-open JSV Go
+  C04 — the inferred schema accepts every encoded value.  Property theorems only
+  (helper lemmas: JSV/Proofs/InfStore.lean, InfStruct.lean, InfEqns.lean, InfModels.lean, InfValid.lean,
+  InfSound.lean; the model of encoding/json on the fragment is JSV/Spec/EncJson.lean).
 
-theorem validateFuel_zero (env : VEnv) (stack : List NodeId) (i : GoVal) (s : NodeId) :
-    validateFuel env 0 stack i s = .fuel := rfl
+  Vocabulary:
+  * `EncJson.GoValue`, `EncJson.HasType T v`, `EncJson.encode T v` : values of the fragment and json.Marshal;
+  * `EncJson.InDomain T` : basic kinds Bool / Int* / Uint* / Float* / String / Interface, pointers, slices,
+    arrays, string-keyed maps, structs whose non-omitted fields have pairwise distinct JSON names (H_D14) and
+    tag names encoding/json accepts (H_D15); no named types (these are covered by C16.typeTable_substituted);
+  * `Spec.specEnvNoRefs st re` : the Spec environment over the store, draft 2020-12, no references, any
+    regexp matcher;
+  * `EncJson.depth T` : the nesting depth of the schema, the fuel the Spec needs.
+-/
+import JSV.Proofs.InfSound
+namespace JSV.C04
+open JSV Go EncJson Spec
+
+/-! ## the kind table (regenerated from infer.go) against the value ranges of the Go kinds -/
+
+/-- for every sized integer kind the schema's bounds contain the kind's value range -/
+theorem int_bounds_contain :
+    ∀ k, k ∈ sizedKinds → ∃ mn mx lo hi, kindEntry k = some ("integer", some mn, some mx) ∧
+      minValue k = some lo ∧ maxValue k = some hi ∧ mn ≤ lo ∧ hi ≤ mx := by
+  intro k hk
+  simp only [sizedKinds, List.mem_cons, List.not_mem_nil, or_false] at hk
+  rcases hk with rfl | rfl | rfl | rfl | rfl | rfl <;>
+    exact ⟨_, _, _, _, rfl, rfl, rfl, by decide, by decide⟩
+
+/-- … and for every integer kind at all, whatever bounds the table states contain the value range -/
+theorem int_bounds_contain_all (k : String) (lo hi : Int) (h : intRange k = some (lo, hi)) :
+    ∃ mn mx, kindEntry k = some ("integer", mn, mx) ∧ (∀ m, mn = some m → m ≤ lo) ∧ (∀ m, mx = some m → hi ≤ m) :=
+  int_table h
+
+/-- unsigned kinds have minimum 0 -/
+theorem unsigned_minimum_zero :
+    ∀ k, k ∈ unsignedKinds → (kindEntry k).map (fun e => (e.1, e.2.1)) = some ("integer", some 0) := by
+  decide
+
+/-- int and int64 have no bounds; uint, uint64 and uintptr have no maximum -/
+theorem word_kinds_unbounded :
+    kindEntry "Int" = some ("integer", none, none) ∧ kindEntry "Int64" = some ("integer", none, none) ∧
+    kindEntry "Uint" = some ("integer", some 0, none) ∧ kindEntry "Uint64" = some ("integer", some 0, none) ∧
+    kindEntry "Uintptr" = some ("integer", some 0, none) := by
+  decide
+
+/-- the type keyword of every basic kind of the fragment -/
+theorem kind_types :
+    (∀ k, k ∈ intKinds → (kindEntry k).map (·.1) = some "integer") ∧
+    (∀ k, k ∈ floatKinds → kindEntry k = some ("number", none, none)) ∧
+    kindEntry "Bool" = some ("boolean", none, none) ∧ kindEntry "String" = some ("string", none, none) ∧
+    kindEntry "Interface" = some ("", none, none) := by
+  decide
+
+/-! ## the main statement -/
+
+/-- **main (fragment)**: for a type of the domain, the schema `ForType` returns accepts the JSON encoding of
+    every value of the type (with the default setting that slices may be `null`) -/
+theorem infer_sound (opts : IOpts) (fuel : Nat) (T : GoType) (st : Store) (id : NodeId) (st' : Store)
+    (re : String → String → Bool) (hnfs : opts.nullForSlices = true) (hdom : InDomain T = true)
+    (h : forType opts fuel T st = .ok (some id, st')) (v : GoValue) (hv : HasType T v)
+    (fuel' : Nat) (hf : depth T ≤ fuel') :
+    Spec.valid (specEnvNoRefs st' re) fuel' id (encode T v) = some true := by
+  obtain ⟨id', hid, hm⟩ := inferFuel_models opts fuel T [] st (some id) st' hdom h
+  cases hid
+  rw [hnfs] at hm
+  exact valid_iff_isSome.1 ((Models.sound (re := re) T false id hm fuel' [] hf).2 v hv)
+
+/-- on the domain `ForType` never drops the type (IgnoreInvalidTypes has nothing to ignore) -/
+theorem infer_some (opts : IOpts) (fuel : Nat) (T : GoType) (st : Store) (r : Option NodeId) (st' : Store)
+    (hdom : InDomain T = true) (h : forType opts fuel T st = .ok (r, st')) : ∃ id, r = some id := by
+  obtain ⟨id, hid, _⟩ := inferFuel_models opts fuel T [] st r st' hdom h
+  exact ⟨id, hid⟩
+
+/-- a pointer to a type of the domain: `null` (the nil pointer) is accepted as well — an instance of
+    `infer_sound`, spelled out -/
+theorem infer_sound_nil_pointer (opts : IOpts) (fuel : Nat) (T : GoType) (st : Store) (id : NodeId) (st' : Store)
+    (re : String → String → Bool) (hnfs : opts.nullForSlices = true) (hdom : InDomain T = true)
+    (h : forType opts fuel (.ptr T) st = .ok (some id, st')) (fuel' : Nat) (hf : depth T ≤ fuel') :
+    Spec.valid (specEnvNoRefs st' re) fuel' id .null = some true :=
+  infer_sound opts fuel (.ptr T) st id st' re hnfs hdom h .nilPtr trivial fuel' hf
+
+
+/-! ## what the hypotheses exclude (labelled tests) -/
+
+/-- `opts.nullForSlices = true` is needed: with `JSONSCHEMAGODEBUG=typeschemasnull=1` the schema of `[]int8` is
+    `{"type":"array",…}`, which rejects the encoding `null` of the nil slice -/
+example : (match forType { nullForSlices := false } 2 (.slice (.basic "Int8")) #[] with
+    | .ok (some id, st') => Spec.valid (specEnvNoRefs st') 3 id (encode (.slice (.basic "Int8")) .nilSlice)
+    | _ => none) = some false := by decide
+
+/-- nil maps are outside the fragment (`GoValue` has no nil map): json.Marshal writes `null` for them, which
+    the schema of `map[string]int8` rejects -/
+example : (match forType {} 2 (.map "String" (.basic "Int8")) #[] with
+    | .ok (some id, st') => Spec.valid (specEnvNoRefs st') 3 id .null
+    | _ => none) = some false := by decide
+
+/-! ## the hypotheses are satisfiable on non-trivial data -/
+
+example : InDomain (.slice (.ptr (.basic "Int8"))) = true := by decide
+
+example : HasType (.slice (.ptr (.basic "Int8"))) (.slice [.ptr (.int 5), .nilPtr]) := by
+  simp only [HasType, basicHasType, intRange, List.mem_cons, List.not_mem_nil, or_false]
+  rintro w (rfl | rfl)
+  · exact ⟨-128, 127, by simp, by decide, by decide⟩
+  · trivial
+
+/-- `infer_sound` applied: `[]*int8{&5, nil}` ↦ `[5,null]` is accepted -/
+example (id : NodeId) (st' : Store) (h : forType {} 3 (.slice (.ptr (.basic "Int8"))) #[] = .ok (some id, st')) :
+    Spec.valid (specEnvNoRefs st') 2 id (.arr [.num 5, .null]) = some true := by
+  have hv : HasType (.slice (.ptr (.basic "Int8"))) (.slice [.ptr (.int 5), .nilPtr]) := by
+    simp only [HasType, basicHasType, intRange, List.mem_cons, List.not_mem_nil, or_false]
+    rintro w (rfl | rfl)
+    · exact ⟨-128, 127, by simp, by decide, by decide⟩
+    · trivial
+  have := infer_sound {} 3 _ #[] id st' (fun _ _ => false) rfl (by decide) h _ hv 2 (by decide)
+  simpa [encode] using this
+
+/-- … and evaluated: the same verdict by running the model and the Spec -/
+example : (match forType {} 3 (.slice (.ptr (.basic "Int8"))) #[] with
+    | .ok (some id, st') => Spec.valid (specEnvNoRefs st') 2 id (.arr [.num 5, .null])
+    | _ => none) = some true := by decide
+
+/-- out of range: 128 is rejected by the schema of `[]*int8` -/
+example : (match forType {} 3 (.slice (.ptr (.basic "Int8"))) #[] with
+    | .ok (some id, st') => Spec.valid (specEnvNoRefs st') 2 id (.arr [.num 128])
+    | _ => none) = some false := by decide
 
 end JSV.C04
